@@ -7,7 +7,9 @@
 (*           dk   |-> kinds of the trailing defaults ("const" | "prev" =   *)
 (*                    the preceding parameter | "outer" = a template       *)
 (*                    variable that is re-assigned between definition and  *)
-(*                    call), Len(dk) <= n                                  *)
+(*                    call | "self" = the parameter's own name, which is   *)
+(*                    not bound yet while its default is evaluated),       *)
+(*                    Len(dk) <= n                                         *)
 (*           ec   |-> the signature ends with an explicit parameter named  *)
 (*                    `caller` that has a default                          *)
 (*           uses |-> which of varargs / kwargs / caller the body mentions]*)
@@ -15,7 +17,11 @@
 (*           kws  |-> names passed as keywords (value "k<name>")           *)
 (*           cb   |-> the call is a {% call %} block (passes caller=...)   *)
 (*           dup  |-> a keyword that is given twice (explicitly and inside *)
-(*                    **mapping), "" = none]                               *)
+(*                    **mapping), "" = none                                *)
+(*           rk   |-> the keyword that names no parameter ("u") is written *)
+(*                    with a name that is a reserved word of Python        *)
+(*                    ("class", "for", ...): the call site cannot use      *)
+(*                    Python's keyword syntax and delivers one mapping]    *)
 (*                                                                         *)
 (* ABSTRACT LAYER  Rules(sig, call): the calling rules as the property     *)
 (* states them - positionals fill parameters in order; surplus positionals *)
@@ -42,14 +48,15 @@ CONSTANTS
     MaxParams,      \* 0..4 ordinary parameters
     MinParams,
     MaxDefaults,    \* 0..3 trailing defaults
-    DefKinds,       \* subset of {"const", "prev", "outer"}
+    DefKinds,       \* subset of {"const", "prev", "outer", "self"}
     UsesSets,       \* set of subsets of {"varargs", "kwargs", "caller"}
     ExplicitCaller, \* subset of BOOLEAN
     MaxPos,         \* 0..5 positional arguments
     KwExtra,        \* keyword names that are no ordinary parameter: subset of {"u", "caller"}
     MaxKw,          \* at most this many keywords
     CallBlocks,     \* subset of BOOLEAN
-    AllowDup        \* BOOLEAN
+    AllowDup,       \* BOOLEAN
+    ReservedKw      \* subset of BOOLEAN: spellings of the unknown keyword (FALSE = u, TRUE = a Python reserved word)
 
 VARIABLES sig, call, pc, arguments, kw, found, outcome
 
@@ -66,6 +73,14 @@ OuterAtDef  == "od"           \* ... when the macro was defined
 \* value passed for keyword k; a call block passes the block as caller
 KV(c, k) == IF k = "caller" THEN (IF c.cb THEN "CB" ELSE "kcaller")
             ELSE CASE k = "a" -> "ka" [] k = "b" -> "kb" [] k = "c" -> "kc" [] k = "d" -> "kd" [] k = "u" -> "ku"
+
+\* the name under which keyword k travels (and under which it shows up in kwargs)
+KwName(c, k) == IF k = "u" /\ c.rk THEN "class" ELSE k
+\* compiler.signature has two spellings of a call site.  "keywords": `m(p.., k=v, .., caller=caller)`;
+\* "mapping" (some keyword name is reserved in Python): `m(p.., **{'k': v, .., 'caller': caller})`.
+\* The extra keyword arguments the compiler adds (the call block as `caller`) are *variables* of the
+\* generated code in both spellings; both deliver the same names with the same values.
+SiteSpelling(c) == IF \E k \in c.kws : KwName(c, k) = "class" THEN "mapping" ELSE "keywords"
 
 Params(s) == SubSeq(Names, 1, s.n) \o (IF s.ec THEN <<"caller">> ELSE <<>>)
 Argc(s)   == Len(Params(s))
@@ -84,7 +99,12 @@ Sigs ==
 KwNames(s) == {Names[i] : i \in 1..s.n} \cup KwExtra
 Calls(s) ==
     {c \in [npos : 0..MaxPos, kws : {K \in SUBSET KwNames(s) : Cardinality(K) <= MaxKw},
-            cb : CallBlocks, dup : {""} \cup (IF AllowDup THEN KwNames(s) ELSE {})] :
+            cb : CallBlocks, dup : {""} \cup (IF AllowDup THEN KwNames(s) ELSE {}), rk : ReservedKw] :
+        \* the reserved spelling concerns the keyword u only
+        /\ (c.rk => "u" \in c.kws)
+        \* (the mapping spelling merges the written keywords with **mapping in one dict(...): a name given
+        \* twice is then not a duplicate for Python's call protocol; outside the rules stated here: excluded)
+        /\ ~(c.rk /\ c.dup # "")
         \* (one duplicated keyword aborts the call whatever else is passed: enumerate it for simple calls only)
         /\ (c.dup # "" => c.dup \in c.kws /\ c.npos = 0 /\ ~c.cb)
         \* `{% call m(caller=x) %}` would spell the keyword twice in the generated call: excluded
@@ -109,6 +129,9 @@ RuleParam(s, c, i) ==
            [] DefKind(s, i) = "const" -> DConst[name]   \* ... or the default, evaluated at call time
            [] DefKind(s, i) = "prev"  -> RuleParam(s, c, i - 1)
            [] DefKind(s, i) = "outer" -> OuterAtCall
+           \* the parameter is not bound while its own default is evaluated (and it hides an outer
+           \* variable of the same name): the name is undefined there
+           [] DefKind(s, i) = "self"  -> Undef
 
 \* keywords that fill a parameter (or the implicit caller)
 Consumed(s, c) ==
@@ -124,7 +147,7 @@ Rules(s, c) ==
     ELSE [kind    |-> "ok",
           params  |-> [i \in 1..Argc(s) |-> RuleParam(s, c, i)],
           varargs |-> IF "varargs" \in s.uses THEN Surplus(s, c) ELSE <<>>,
-          kwargs  |-> IF "kwargs" \in s.uses THEN {<<k, KV(c, k)>> : k \in Unconsumed(s, c)} ELSE {},
+          kwargs  |-> IF "kwargs" \in s.uses THEN {<<KwName(c, k), KV(c, k)>> : k \in Unconsumed(s, c)} ELSE {},
           caller  |-> IF ImplicitCaller(s)
                       THEN (IF "caller" \in EffKw(c) THEN KV(c, "caller") ELSE Undef)
                       ELSE "-"]
@@ -152,7 +175,11 @@ Fail == pc' = "done" /\ outcome' = TypeErr /\ UNCHANGED <<sig, call, arguments, 
 Deliver ==
     /\ pc = "deliver"
     /\ IF call.dup # "" THEN Fail
-       ELSE /\ pc' = "positional" /\ kw' = EffKw(call)
+       ELSE /\ pc' = "positional"
+            \* either spelling of the call site hands over the written keywords plus the call block
+            /\ kw' = (CASE SiteSpelling(call) = "keywords" -> call.kws \cup (IF call.cb THEN {"caller"} ELSE {})
+                       [] SiteSpelling(call) = "mapping"  -> {k \in KwNames(sig) \cup {"caller"} :
+                                                                k \in call.kws \/ (k = "caller" /\ call.cb)})
             /\ UNCHANGED <<sig, call, arguments, found, outcome>>
 
 \* arguments = list(args[: self._argument_count])
@@ -191,7 +218,7 @@ Caller ==
 Kwargs ==
     /\ pc = "kwargs"
     /\ IF CatchKwargs
-       THEN /\ arguments' = Append(arguments, {<<k, KV(call, k)>> : k \in kw})
+       THEN /\ arguments' = Append(arguments, {<<KwName(call, k), KV(call, k)>> : k \in kw})
             /\ pc' = "varargs"
             /\ UNCHANGED <<sig, call, kw, found, outcome>>
        ELSE IF kw # {} THEN Fail
@@ -208,13 +235,20 @@ Varargs ==
        ELSE pc' = "invoke" /\ UNCHANGED <<sig, call, arguments, kw, found, outcome>>
 
 \* the compiled macro function: `if l_1_x is missing: l_1_x = <default>` for every parameter in order
+\* A parameter counts as stored only AFTER its `if ... is missing` block (mark_parameter_stored);
+\* a name read before that compiles to `(undefined(name) if l_x is missing else l_x)`.
 RECURSIVE Resolved(_, _)
+ReadParam(args, j, stored) ==
+    IF j \in stored THEN Resolved(args, j)
+    ELSE IF args[j] = Missing THEN Undef ELSE args[j]
 Resolved(args, i) ==
     IF args[i] # Missing THEN args[i]
-    ELSE CASE DefKind(sig, i) = "none"  -> Undef
+    ELSE LET stored == 1..(i - 1) IN       \* parameters already stored while default i is evaluated
+         CASE DefKind(sig, i) = "none"  -> Undef
            [] DefKind(sig, i) = "const" -> DConst[Params(sig)[i]]
-           [] DefKind(sig, i) = "prev"  -> Resolved(args, i - 1)
+           [] DefKind(sig, i) = "prev"  -> ReadParam(args, i - 1, stored)
            [] DefKind(sig, i) = "outer" -> OuterAtCall
+           [] DefKind(sig, i) = "self"  -> ReadParam(args, i, stored)
 
 Invoke ==
     /\ pc = "invoke"
@@ -260,6 +294,7 @@ C06_EachParamOnce ==
               /\ (i <= call.npos => outcome.params[i] = PosVal[i])
               /\ (i > call.npos /\ name \in EffKw(call) => outcome.params[i] = KV(call, name))
               /\ (i > call.npos /\ name \in EffKw(call) => <<name, KV(call, name)>> \notin outcome.kwargs)
+              /\ outcome.params[i] # Missing       \* the internal marker never becomes a parameter value
               /\ (i > call.npos /\ name \notin EffKw(call) /\ DefKind(sig, i) = "none" => outcome.params[i] = Undef)
 
 \* surplus positional arguments go to varargs iff the body uses varargs, else TypeError
@@ -277,7 +312,7 @@ C06_UnknownKeyword ==
             LET isFree == \E i \in 1..Argc(sig) : Params(sig)[i] = k /\ i > call.npos
                 toCaller == k = "caller" /\ ImplicitCaller(sig)
             IN (~isFree /\ ~toCaller) =>
-                 IF "kwargs" \in sig.uses THEN (Ok => <<k, KV(call, k)>> \in outcome.kwargs)
+                 IF "kwargs" \in sig.uses THEN (Ok => <<KwName(call, k), KV(call, k)>> \in outcome.kwargs)
                  ELSE outcome.kind = "TypeError"
 
 \* defaults see the outer variable as it is at call time and earlier parameters as bound
@@ -288,7 +323,15 @@ C06_DefaultsAtCallTime ==
             /\ (i > call.npos /\ Params(sig)[i] \notin EffKw(call) =>
                   /\ (DefKind(sig, i) = "outer" => outcome.params[i] = OuterAtCall)
                   /\ (DefKind(sig, i) = "prev" => outcome.params[i] = outcome.params[i - 1])
-                  /\ (DefKind(sig, i) = "const" => outcome.params[i] = DConst[Params(sig)[i]]))
+                  /\ (DefKind(sig, i) = "const" => outcome.params[i] = DConst[Params(sig)[i]])
+                  \* its own name is not bound (nor an outer variable visible) in a parameter's default
+                  /\ (DefKind(sig, i) = "self" => outcome.params[i] = Undef))
+
+\* the spelling of a keyword name (a reserved word of Python or not) changes nothing but the name
+\* under which it arrives: same parameters, same caller, same TypeError
+RenameU(o) == [o EXCEPT !.kwargs = {IF p[1] = "u" THEN <<"class", p[2]>> ELSE p : p \in @}]
+C06_KeywordNameIrrelevant ==
+    Finished /\ call.rk => outcome = RenameU(Rules(sig, [call EXCEPT !.rk = FALSE]))
 
 \* the call block reaches a body that mentions caller; without a block caller is undefined;
 \* a macro that cannot take the block (no caller, no kwargs) rejects a call block
